@@ -37,7 +37,7 @@ func init() {
 			"PathOf for every h in [0,32] at every from; PathsOf on sorted/unsorted key lists with repeated keys and repeated paths, dedup on/off, incl. all-ones paths. " +
 			"Non-trivial+distinct = hash of (string, from, w) with k >= 1 (at least one bit extracted); PathsOf: hash of (keys, from, h, dedup) with >= 2 keys.",
 		Assumptions: []string{"from >= 0 and 0 <= w <= 32 (stated domain)", "oracle reads bits one at a time, MSB of each byte first"},
-		Flavours:    releaseOnly,
+		Flavours:    releaseThenGo126,
 		Required: []string{"k=0/beyond-end", "k<w/clamped", "k=w", "from/aligned", "from/unaligned", "span/1", "span/2", "span/3", "span/4", "span/5",
 			"w=0", "w=32", "pathsof/dedup-hit", "pathsof/dedup-off-repeat", "pathsof/all-ones-first", "pathof/h=0", "pathof/h=32"},
 		Families: func(c *mon.Config) []mon.Family {
